@@ -28,6 +28,10 @@ type c19Case struct {
 
 const c19Repeats = 12
 
+// historyGrammar is built between two builds of the case's grammar: state blocks, a recovery
+// operator, a left-recursive rule - whatever a cache keyed too coarsely would mix up.
+const historyGrammar = "{\npackage p\n}\nS = #{ return nil } E ( 'x' //{F} 'y' ) &{ return true, nil }\nE = E '+' [0-9] / [0-9] { return nil, nil }\n"
+
 // checkC19 builds the same grammar text repeatedly in one process (Go randomises every
 // map iteration) and compares bytes (or the diagnostic).
 func checkC19(c *c19Case, repeats int) (kind, diff string, changedByOptimizer bool, out0 []byte) {
@@ -54,6 +58,18 @@ func checkC19(c *c19Case, repeats int) (kind, diff string, changedByOptimizer bo
 		}
 		if !bytes.Equal(out, first) {
 			return "output_differs", fmt.Sprintf("run 1 and run %d of the same grammar and flags produce different bytes (%d vs %d bytes, first difference at %d)", i+1, len(first), len(out), firstDiffAt(first, out)), false, first
+		}
+	}
+	// the output is a function of the grammar and the flags, not of what the process built
+	// before: one build with other flags (and one of another grammar) in between, then again
+	if firstErr == "" {
+		other := c.Flags
+		other.Nolint, other.OptimizeParser, other.BasicLatin = !other.Nolint, !other.OptimizeParser, !other.BasicLatin
+		generateOpt([]byte(c.Text), other, false)
+		generateOpt([]byte(historyGrammar), genFlags{OptimizeParser: c.Flags.OptimizeParser, Nolint: !c.Flags.Nolint, LeftRec: c.Flags.LeftRec}, false)
+		out, _, err := generateOpt([]byte(c.Text), c.Flags, false)
+		if err != nil || !bytes.Equal(out, first) {
+			return "output_depends_on_history", fmt.Sprintf("after a build with other flags and a build of another grammar the same grammar and flags produce different bytes (%d vs %d bytes, first difference at %d, err %v)", len(first), len(out), firstDiffAt(first, out), err), false, first
 		}
 	}
 	if ferr != nil && fstage != "format" && firstErr == "" {
@@ -101,6 +117,7 @@ func drawC19(rt *rapid.T) (*c19Case, *gspec.Grammar) {
 	c.Flags.OptimizeGrammar = gspec.U(rt, 2, "optgrammar") == 0
 	c.Flags.OptimizeParser = gspec.U(rt, 3, "optparser") == 0
 	c.Flags.BasicLatin = gspec.U(rt, 3, "latin") == 0
+	c.Flags.Nolint = gspec.U(rt, 3, "nolint") == 0
 	if c.Flags.OptimizeGrammar && gspec.U(rt, 2, "alt") == 0 && len(g.Entries) > 1 {
 		c.Flags.AltEntries = g.Entries[1:]
 	}
